@@ -109,6 +109,9 @@ def run_suite(V, wd, programs, configs, prop, checks=("link", "boundary", "resul
     results, traces = run_jobs(jobs, wd, timeout=timeout, nproc=nproc)
     jobs_by_id = {j["id"]: j for j in jobs}
     stats = {"jobs": len(jobs), "hung": 0, "panicked": 0, "events": 0}
+    if prop == "C04":
+        V.coverage["jobs_checked_for_leaked_threads"] = V.coverage.get("jobs_checked_for_leaked_threads", 0) + \
+            sum(1 for r in results.values() if "threads_leaked" in r)
 
     # -- termination and panics (C04 and, for every property, "the engine must not crash")
     for jid, r in results.items():
@@ -125,6 +128,10 @@ def run_suite(V, wd, programs, configs, prop, checks=("link", "boundary", "resul
                     # the open finding F9 (a C04 defect) hit a job of another property's suite: that job says
                     # nothing about this property; it is counted, not judged
                     V.coverage["jobs_lost_to_F9"] = V.coverage.get("jobs_lost_to_F9", 0) + 1
+        elif prop == "C04" and r.get("threads_leaked", 0) > 0 and job_ok(r):
+            # "all worker and network threads exit": the process had more threads 3 s after the job than before it
+            V.add_violation({"prop": "C04", "kind": "thread_leak", "job": jid, "threads": r["threads_leaked"],
+                             "cfg": j["cfg"], "batch": j["batch"]}, replay=j)
         elif not job_ok(r) and not expect_panic:
             stats["panicked"] += 1
             V.add_violation({"prop": prop, "kind": "job_panic", "job": jid,
